@@ -120,20 +120,31 @@ class World:
                     best = el
         return best
 
+    def _snapshot(self, o):
+        """An operand's value at the moment it was used: the identities of its elements, in order."""
+        if isinstance(o, Obj):
+            items = o.attrs.get(self.item_attr)
+            if isinstance(items, list):
+                self.operands.append((o, [getattr(x, "uid", None) for x in items]))
+
     def evaluate(self, t):
-        """Returns (result, expected_uids, leaves)."""
+        """Returns (result, expected_uids, leaves).  Every operand is recorded with its element list at the time of
+        use (self.operands): + and * are expressions, their operands must still hold the same elements afterwards."""
         if t[0] == "leaf":
             o = self.fresh(t[1])
             return o, [o.uid], [o]
         if t[0] == "add":
             a, ea, la = self.evaluate(t[1])
             b, eb, lb = self.evaluate(t[2])
+            self._snapshot(a)
+            self._snapshot(b)
             r = self.interp.binop(ast.Add(), a, b, None)
             return r, ea + eb, la + lb
         a, ea, la = self.evaluate(t[1])
         n, refl = t[2], t[3]
         if refl and isinstance(a, Obj) and self.prog.lookup_method(a.cls, "__rmul__") is None:
             raise NotOffered(f"{a.cls.name} does not offer n * x")
+        self._snapshot(a)
         r = self.interp.binop(ast.Mult(), n, a, None) if refl else self.interp.binop(ast.Mult(), a, n, None)
         return r, ea * n, la
 
@@ -148,6 +159,7 @@ class World:
     def check_tree(self, t):
         """None if the tree conforms, else (what, detail)."""
         self.interp.steps = 0
+        self.operands = []
         try:
             r, exp, leaves = self.evaluate(t)
         except NotOffered:
@@ -165,6 +177,11 @@ class World:
         want = self.expected_class(leaves)
         if r.cls != want:
             return "class", f"result class is {r.cls.name}, expected {want.name}"
+        # the operands (leaves and intermediate results) still hold what they held when they were used
+        for o, before in self.operands:
+            now = [getattr(x, "uid", None) for x in o.attrs.get(self.item_attr, [])]
+            if now != before:
+                return "operand-mutated", f"an operand of class {o.cls.name} held elements {before} when it was used and holds {now} after the expression was evaluated: + / * changed one of their operands in place (or the result shares its element list with an operand that a later operation extends)"
         return None
 
 
